@@ -397,6 +397,18 @@ class Inliner:
             if r is not None:
                 out.extend(self.block(r, cls_name, self_names, depth + 1))
                 continue
+            if isinstance(st, (ast.For, ast.If, ast.While)) and depth <= 3:
+                # `for x in h(..)` / `if h(..)`: the header expression is evaluated once, before the statement
+                head = "iter" if isinstance(st, ast.For) else "test"
+                hx = getattr(st, head)
+                if isinstance(hx, ast.Call) and self.helper_for(hx, cls_name, self_names) is not None and not isinstance(st, ast.While):
+                    _counter[0] += 1
+                    nm = "__v%d" % _counter[0]
+                    pre = ast.copy_location(ast.Assign(targets=[ast.Name(id=nm, ctx=ast.Store())], value=hx), st)
+                    ast.fix_missing_locations(pre)
+                    setattr(st, head, ast.copy_location(ast.Name(id=nm, ctx=ast.Load()), hx))
+                    out.extend(self.block([pre, st], cls_name, self_names, depth + 1))
+                    continue
             for f in ("body", "orelse", "finalbody"):
                 b = getattr(st, f, None)
                 if isinstance(b, list) and b and isinstance(b[0], ast.stmt):
